@@ -652,7 +652,69 @@ def r11(F, rep):
         raise AnalysisBroken("C13-R11: only %d slot containers found in the proxy classes" % n)
 
 
+def r12(F, rep, rid="C13-R12"):
+    rep.rule(rid, "configuration generated on behalf of an object does not outlive a rejected parse: a member buffer that other "
+                  "functions append to and that one function hands to its parsing stages and then clears is emptied, in that "
+                  "function, before anything can append to it (a clear that precedes every hand-over and is not reachable from a "
+                  "call that can reach an appender) -- or else on every way out of the function; otherwise a block left behind "
+                  "by a rejected configuration is parsed together with the next one and re-creates an object that was deleted")
+    from .rules_c10 import lvalue_writes, member_root
+    cg = callgraph.get(F)
+    app = {}
+    for f in F.funcs.values():
+        if "/src/" not in f.file or f.body is None:
+            continue
+        for w, t in lvalue_writes(f):
+            mr = member_root(t)
+            if mr is None:
+                continue
+            if (w["k"] == "CXXOperatorCallExpr" and w.get("op") == "+=") or (w["k"] == "CXXMemberCallExpr" and X.callee_name(w) in ("append", "push_back")):
+                app.setdefault(mr["q"], set()).add(f.m)
+    n = 0
+    for f in sorted(F.funcs.values(), key=lambda g: g.q):
+        if "/src/" not in f.file or f.body is None or not f.cls or not f.cfg.ok:
+            continue
+        clears = {}
+        for c in X.calls(f):
+            if c["k"] == "CXXMemberCallExpr" and X.callee_name(c) == "clear":
+                r = X.receiver(c)
+                rs = X.strip(r) if r is not None else None
+                if rs is not None and rs["k"] == "MemberExpr" and X.kids(rs) and X.strip(X.kids(rs)[0])["k"] == "CXXThisExpr":
+                    clears.setdefault(rs["q"], []).append(c)
+        for q, cs in sorted(clears.items()):
+            prod = app.get(q, set()) - {f.m}
+            if not prod:
+                continue
+            uses = []
+            for c2 in X.calls(f):
+                if c2["k"] == "CXXOperatorCallExpr" or c2 in cs or X.callee_name(c2) in ("clear", "size", "empty"):
+                    continue
+                for a in X.call_args(c2):
+                    sa = X.strip(a)
+                    if sa["k"] == "MemberExpr" and sa.get("q") == q:
+                        uses.append(c2)
+            if not uses or not any(f.cfg.can_reach(u, c) for u in uses for c in cs):
+                continue
+            n += 1
+            xs = [c for c in X.calls(f) if c.get("callee") and c not in cs and
+                  any(cg.reaches(t, lambda m, g: m in prod) for t in cg.targets(c))]
+            entry = [c for c in cs if all(f.cfg.dominates(c, u) for u in uses) and not any(f.cfg.can_reach(x, c) for x in xs)]
+            rets = [x for x in f.walk() if x["k"] == "ReturnStmt" and f.cfg.is_reachable(x)]
+            exitf = bool(rets) and all(any(f.cfg.dominates(c, r) and not any(f.cfg.can_reach(c, x) and f.cfg.can_reach(x, r) for x in xs) for c in cs) for r in rets)
+            ok = bool(entry) or exitf
+            name = q.split("::")[-1]
+            rep.add(rid, "%s|%s" % (f.q, name), f.loc(entry[0] if entry else cs[0]),
+                    "%s hands `%s` to %d call(s) and clears it; %s" % (f.q, name, len(uses),
+                        "it is emptied before anything can append to it" if entry else
+                        ("it is emptied on every way out" if exitf else
+                         "NO clear precedes the hand-over, and %d return(s) leave it filled" % len([r for r in rets if not any(f.cfg.dominates(c, r) for c in cs)]))), ok,
+                    detail="appended by %s; what a rejected configuration left in it is parsed with the next configuration" % sorted(F.funcs[m].q for m in prod if m in F.funcs), func=f.q)
+    if n < 1:
+        raise AnalysisBroken("%s: no consume-and-clear staging buffer found (the module's generated-configuration buffer expected)" % rid)
+
+
 def run(F, rep, tier):
+    r12(F, rep)
     r9(F, rep)
     r11(F, rep)
     r10(F, rep)
